@@ -14,7 +14,7 @@ use refmodel::txjson::{self, Spell};
 const P: &str = "C11";
 fn chain_alphabet() -> Vec<(&'static str, Option<Option<Nat>>)> { // None = key absent, Some(None) = null
     let cmax = Nat::pow2(255).sub(&Nat::from_u64(19));
-    vec![("absent", None), ("null", Some(None)), ("0", Some(Some(Nat::zero()))), ("1", Some(Some(Nat::from_u64(1)))), ("2^32", Some(Some(Nat::pow2(32)))), ("2^64-1", Some(Some(Nat::pow2(64).sub(&Nat::from_u64(1))))), ("2^128+5", Some(Some(Nat::pow2(128).add(&Nat::from_u64(5))))), ("cmax", Some(Some(cmax.clone()))),
+    vec![("absent", None), ("null", Some(None)), ("0", Some(Some(Nat::zero()))), ("1", Some(Some(Nat::from_u64(1)))), ("2^32", Some(Some(Nat::pow2(32)))), ("2^64-1", Some(Some(Nat::pow2(64).sub(&Nat::from_u64(1))))), ("2^128+5", Some(Some(Nat::pow2(128).add(&Nat::from_u64(5))))), ("(2^32-36)/2+1", Some(Some(Nat::from_u64(2147483631)))), ("(2^64-36)/2", Some(Some(Nat::pow2(63).sub(&Nat::from_u64(18))))), ("(2^64-36)/2+1", Some(Some(Nat::pow2(63).sub(&Nat::from_u64(17))))), ("cmax", Some(Some(cmax.clone()))),
         // beyond cmax the tool may refuse; if it signs, v must still be the exact integer 35 + 2c + yParity (no wrap-around)
         ("cmax+1", Some(Some(cmax.add(&Nat::from_u64(1))))), ("cmax+2", Some(Some(cmax.add(&Nat::from_u64(2))))), ("2^255", Some(Some(Nat::pow2(255)))), ("2^256-1", Some(Some(Nat::pow2(256).sub(&Nat::from_u64(1)))))]
 }
